@@ -56,6 +56,16 @@ func noteSym(fr *frame) {
 	}
 }
 
+func isCoregxFn(f *ssa.Function) bool {
+	for f.Parent() != nil {
+		f = f.Parent()
+	}
+	if o := f.Origin(); o != nil {
+		f = o
+	}
+	return f.Pkg != nil && strings.HasPrefix(f.Pkg.Pkg.Path(), "github.com/coregx/")
+}
+
 func isWorkFn(fr *frame) bool {
 	w, ok := fr.i.workFn[fr.fn]
 	if !ok {
